@@ -557,7 +557,7 @@ fn run_c05(ctx: &Ctx) -> i32 {
         trace_job(tr, mi, stats, j % (n_enum / 4).max(1) == 0)
     });
     // (2) seeded fault histories
-    let n = if thorough { 400_000 } else { 40_000 };
+    let n = if thorough { 2_000_000 } else { 40_000 };
     let b2 = fault_batch("C05", &C05_MACHINES, n, faulty::Mode::NonPositive, ctx.seed, "seeded fault histories (non-positive corruption, early EOF, merges, forks, queries)");
     // (3) fault-free histories: the twin refinement on states reached by merges of clean data
     let b3 = fault_batch("C05", &C05_MACHINES, n / 4, faulty::Mode::Totality, ctx.seed ^ 0x55, "seeded histories, all corruption kinds (twin refinement on healthy slots)");
@@ -575,7 +575,13 @@ fn run_c05(ctx: &Ctx) -> i32 {
 fn run_c11(ctx: &Ctx) -> i32 {
     let thorough = ctx.tier == "thorough";
     // (1) exhaustive fault cases against every entry point
-    let cases_v = cases::enumerate(ctx.seed, 6);
+    // thorough: the same exhaustive case space over 6 different valid backgrounds
+    let mut cases_v = cases::enumerate(ctx.seed, 6);
+    if thorough {
+        for i in 1..6u64 {
+            cases_v.extend(cases::enumerate(ctx.seed.wrapping_add(i * 7919), 6));
+        }
+    }
     let n_cases = cases_v.len() as u64;
     let cref = &cases_v;
     let b1: Batch<Art> = runner::run_batch("enumerated fault cases (entry point x fault kind x position x confidence, streams <= 6)", n_cases, false, move |j, stats| {
@@ -592,7 +598,7 @@ fn run_c11(ctx: &Ctx) -> i32 {
         JobOut { artifact: if violations.is_empty() { None } else { Some(Art::Case(c.clone())) }, violations, reach, nontrivial: c.fault != "none", fired, sample, label: (0, c.entry.name().to_string()) }
     });
     // (2) seeded fault-then-continue histories on long-lived states
-    let n = if thorough { 150_000 } else { 15_000 };
+    let n = if thorough { 1_000_000 } else { 15_000 };
     let b2 = fault_batch("C11", &C09_MACHINES, n, faulty::Mode::Totality, ctx.seed, "seeded fault histories on long-lived states (corrupt / early EOF / desync / duplicate, then merges, forks, queries)");
     let rule = "one evaluation = one fault case (an entry point fed a stream carrying one fault at one position, with one confidence) or one seeded fault history on a long-lived state; the oracle classifies the actual input and demands: no panic except the documented ones, no Ok with a NaN or inverted bound, the documented error variant (with payload when a single class is present); distinct = distinct (entry, type, lengths, fault, position, confidence, style) tuples resp. event-shape sequences; non-trivial = a fault is present";
     let assumptions = ["documented variants are taken from the rustdoc of each entry point (TooFewSamples, InvalidInputData, NonPositiveValue, InvalidSuccesses, TooFewSuccesses, TooFewFailures, InvalidQuantile, DifferentSampleSizes)", "degenerate but valid data (constant, overflowing, underflowing) may yield any Err or a valid Ok", "confidence levels are drawn from [0.001, 0.9999] through the checked constructors"];
